@@ -144,7 +144,8 @@ async fn history(root: std::path::PathBuf, seed: u64, h: u64, t_ms: u64) -> Out 
                         seq += 1;
                         let p = format!("s5h{}lost{}", h, seq).into_bytes();
                         let _ = tx.send(UdpIn { source: flows[0].0, destination: flows[0].1, app_name: None, payload: Bytes::copy_from_slice(&p) });
-                        tokio::time::sleep(Duration::from_millis(40)).await;
+                        // the socket error may be met first by the next send or by the pending receive: both orders are wanted
+                        tokio::time::sleep(Duration::from_millis([2u64, 40, 150, 400][((h / 4) % 4) as usize])).await;
                     }
                     *out.tallies.entry("s5: relay of an association died (datagrams bounce): the multiplexer and the other client socket's flows go on".into()).or_insert(0) += 1;
                     last_activity = Some(Instant::now());
